@@ -111,7 +111,10 @@ def cases(rng, tier, shard, nshards, ctx):
                     # a plain number can only be added to a dimensionless quantity: written in a dimensionless UNIT with a factor
                     u = ['a', '', rng.choice(['%', 'ppth', '[pi]', '%', 'ppth']), 1, 1]
                     kind = 'number-and-dimensionless-unit'
-            yield dict(op=op, u=u, v=v, kind=kind, xa=pick(rng), xb=pick(rng), arr=arr, side=rng.choice(['right', 'left']), numtype=rng.choice(['py', 'py', 'np.float64', 'np.int', 'ndarray']))
+            xb_ = pick(rng)
+            if v is None and rng.random() < 0.3:
+                xb_ = rng.choice([0, 0.0, 1, False, True])       # the neutral elements and their bool spellings are numbers like any other
+            yield dict(op=op, u=u, v=v, kind=kind, xa=pick(rng), xb=xb_, arr=arr, side=rng.choice(['right', 'left']), numtype=rng.choice(['py', 'py', 'np.float64', 'np.int', 'ndarray']))
         elif r < 0.62:
             op = rng.choice(['mul', 'div'])
             u = gen_unit(rng, ctx)
